@@ -200,5 +200,34 @@ def generated(rng, n):
     return out
 
 
+TEXTDUMP = ('<xsl:template match="/"><out all="{count(//text())}"><xsl:for-each select="//e"><e id="{@id}" n="{count(node())}" t="{count(text())}" first="{string-length(text()[1])}" '
+            'last="{string-length(text()[last()])}" len="{string-length(.)}"><xsl:for-each select="node()"><k p="{position()}" t="{name()}" l="{string-length()}" '
+            'b="{substring(., 1, 3)}" z="{substring(., string-length() - 2)}"/></xsl:for-each></e></xsl:for-each></out></xsl:template>')
+
+
+def text_boundaries(rng, n):
+    """one text node, however the parser hands it over: runs of characters of many lengths (around the small constants a tree
+    builder may buffer with, and larger than a parser's own buffer) joined by entity / character references, CDATA sections and
+    internal entities - none of which ends a text node - and by comments / PIs / elements, which do."""
+    out = []
+    lengths = [0, 1, 2, 15, 16, 17, 31, 32, 33, 63, 64, 65, 99, 100, 101, 109, 127, 128, 129, 255, 256, 257, 511, 512, 513, 1023, 1024, 1025, 4095, 4096, 4097, 16383, 16385, 70000]
+    glue_same = ["&amp;", "&lt;", "&#65;", "&#x10400;", "<![CDATA[<c>]]>", "&ent;", "<![CDATA[]]>", "&long;", "\n", "\r\n"]
+    glue_split = ["<!--c-->", "<?p d?>", "<i/>"]
+    for k in range(n):
+        els = []
+        for j in range(rng.randint(3, 6)):
+            parts = []
+            for c in range(rng.randint(1, 5)):
+                ln = rng.choice(lengths[:28] if rng.random() < 0.9 else lengths)
+                parts.append("".join(rng.choice("abcdefghij klmno") for _ in range(ln)))
+                parts.append(rng.choice(glue_same) if rng.random() < 0.8 else rng.choice(glue_split))
+            if rng.random() < 0.5:
+                parts.pop()
+            els.append('<e id="e%d">%s</e>' % (j, "".join(parts)))
+        dtd = '<!DOCTYPE r [<!ENTITY ent "E&#38;E"><!ENTITY long "%s">]>' % ("L" * 150)
+        out.append(inp("text-boundaries-%d" % k, ss(TEXTDUMP), doc("<r>%s</r>" % "".join(els), prolog=dtd)))
+    return out
+
+
 def make_corpus(rng, ngen):
-    return handmade() + generated(rng, ngen)
+    return handmade() + text_boundaries(rng, max(2, ngen // 6)) + generated(rng, ngen)
